@@ -92,3 +92,24 @@ Lemma store_evicted_run :
   count_of (zproc [EvVerify 0%nat honest2; EvVerify 0%nat honest3; EvEvict; EvCast true]) = Some 0%nat /\
   phase_of (zproc [EvCast true; EvVerify 0%nat honest2; EvTimeout; EvVerify 0%nat honest3]) = Some Closed.
 Proof. vm_compute. repeat split. Qed.
+
+(* Message ids inside a party (same group, handler with the hash comparison).  While round0 is still
+   checking, the party stores verify messages by id; round1.Start replays them and marks their ids
+   processed whether or not they verified.  If the id depends only on unauthenticated fields - here:
+   the signer id named in the message - a faulty sender's message naming member 3 (bad share) stored
+   first makes member 3's genuine message, which now has the same id, refused unread, both while
+   waiting and afterwards: with honest 2 and 3 delivered the block does not finalise.  With ids that
+   separate different messages (the hash of the bytes) it does. *)
+Definition spoof3 : @msg Z nat := Msg 3 0%nat (PVal 1) (PVal 1).
+Definition zifinal (deliv ms : list (nat * @msg Z nat)) :=
+  ifinal (zq rq) Z.eqb (zveq rq) (Z.eqb 0) (zvz rq) Nat.eqb (zH rhs) zsel nat Nat.eqb (fun l => l) true renv deliv ms.
+Definition id_by_sender (m : @msg Z nat) : nat := Z.to_nat (m_sender m).
+
+Lemma id_spoof_run :
+  (* ids = signer id: spoof stored, genuine 3 refused (stored phase or later) *)
+  p_phase (zifinal [(3, spoof3); (3, honest3)]%nat [(2, honest2)]%nat) = Collecting /\
+  p_phase (zifinal [(3, spoof3)]%nat [(2, honest2); (3, honest3)]%nat) = Collecting /\
+  (* ids that separate the spoofed from the genuine message *)
+  p_phase (zifinal [(7, spoof3); (3, honest3)]%nat [(2, honest2)]%nat) = Finished /\
+  p_phase (zifinal [(7, spoof3)]%nat [(2, honest2); (3, honest3)]%nat) = Finished.
+Proof. vm_compute. repeat split. Qed.
